@@ -12,7 +12,7 @@ namespace LuaHelper.Diag
 structure Err where
   ty : Nat            -- 1 = syntax error
   key : String        -- CheckError.ToString(): type, range, message — what IsSameErrList compares
-  extra : String := ""  -- what is published but NOT compared: entry-file suffix, related information
+  extra : String := ""  -- published and compared separately (isSameErrExtra): entry-file suffix, related information
 deriving DecidableEq, Repr, Inhabited
 
 abbrev File := String
@@ -32,8 +32,13 @@ def publish (s : St) (f : File) (e : List Err) : St :=
 
 def nonSyntax (e : List Err) : List Err := e.filter (·.ty != 1)
 
-/-- IsSameErrList -/
-def sameErrs (a b : List Err) : Bool := a.map (fun e => (e.ty, e.key)) == b.map (fun e => (e.ty, e.key))
+/-- IsSameErrList: type, range and message (ToString) and, since repair of finding C08-K2, the entry file and
+    the related locations (isSameErrExtra) -/
+def sameErrs (a b : List Err) : Bool :=
+  a.map (fun e => (e.ty, e.key, e.extra)) == b.map (fun e => (e.ty, e.key, e.extra))
+
+/-- IsSameErrList as it was: related information and entry file ignored (kept for theorem C08.stale_extra_before) -/
+def sameErrsOld (a b : List Err) : Bool := a.map (fun e => (e.ty, e.key)) == b.map (fun e => (e.ty, e.key))
 
 /-- pushFileDiagnostic -/
 def pushFile (s : St) (f : File) (ignoreSyntax : Bool) : St :=
